@@ -421,6 +421,134 @@ func (s c17CustomState) NextToken(scanner rio.IScanner, tokenizer tokenizers.ITo
 	return tokenizers.NewToken(tokenizers.Special, string(ch), scanner.Line(), scanner.Column())
 }
 
+// ---- a second state object of every built-in kind (it satisfies the kind's interface), configured for a
+// range of one of the four tokenizers: every character of the range must be handed to THAT object
+
+type c17Handed struct{ calls int }
+
+func (h *c17Handed) next(sc rio.IScanner) *tokenizers.Token {
+	h.calls++
+	l, col := sc.PeekLine(), sc.PeekColumn()
+	return tokenizers.NewToken(tokenizers.Special, string(sc.Read()), l, col)
+}
+
+type c17SecondWhitespace struct {
+	*generic.GenericWhitespaceState
+	h *c17Handed
+}
+type c17SecondWord struct {
+	*generic.GenericWordState
+	h *c17Handed
+}
+type c17SecondNumber struct {
+	*generic.GenericNumberState
+	h *c17Handed
+}
+type c17SecondQuote struct {
+	*generic.GenericQuoteState
+	h *c17Handed
+}
+type c17SecondComment struct {
+	*generic.GenericCommentState
+	h *c17Handed
+}
+type c17SecondSymbol struct {
+	*generic.GenericSymbolState
+	h *c17Handed
+}
+type c17SecondPlain struct{ h *c17Handed }
+
+func (s c17SecondWhitespace) NextToken(sc rio.IScanner, t tokenizers.ITokenizer) *tokenizers.Token {
+	return s.h.next(sc)
+}
+func (s c17SecondWord) NextToken(sc rio.IScanner, t tokenizers.ITokenizer) *tokenizers.Token {
+	return s.h.next(sc)
+}
+func (s c17SecondNumber) NextToken(sc rio.IScanner, t tokenizers.ITokenizer) *tokenizers.Token {
+	return s.h.next(sc)
+}
+func (s c17SecondQuote) NextToken(sc rio.IScanner, t tokenizers.ITokenizer) *tokenizers.Token {
+	return s.h.next(sc)
+}
+func (s c17SecondComment) NextToken(sc rio.IScanner, t tokenizers.ITokenizer) *tokenizers.Token {
+	return s.h.next(sc)
+}
+func (s c17SecondSymbol) NextToken(sc rio.IScanner, t tokenizers.ITokenizer) *tokenizers.Token {
+	return s.h.next(sc)
+}
+func (s c17SecondPlain) NextToken(sc rio.IScanner, t tokenizers.ITokenizer) *tokenizers.Token {
+	return s.h.next(sc)
+}
+
+var c17SecondKinds = []string{"whitespace", "word", "number", "quote", "comment", "symbol", "plain"}
+var c17SecondRanges = [][2]rune{{'_', '_'}, {'0', '9'}, {' ', ' '}, {0xe9, 0xe9}, {0x2000, 0x200a}, {0xfffe, 0xfffe}}
+
+func c17HandOver(c *fw.Ctx, i int64) {
+	kind := tokKinds[int(i)%len(tokKinds)]
+	i /= int64(len(tokKinds))
+	if kind == "mustache" {
+		c.Count("skipped_template_text_outside_tags_has_its_own_state", 1)
+		return
+	}
+	sk := int(i) % len(c17SecondKinds)
+	rg := c17SecondRanges[int(i)/len(c17SecondKinds)]
+	h := &c17Handed{}
+	var st tokenizers.ITokenizerState
+	switch sk {
+	case 0:
+		st = c17SecondWhitespace{generic.NewGenericWhitespaceState(), h}
+	case 1:
+		st = c17SecondWord{generic.NewGenericWordState(), h}
+	case 2:
+		st = c17SecondNumber{generic.NewGenericNumberState(), h}
+	case 3:
+		st = c17SecondQuote{generic.NewGenericQuoteState(), h}
+	case 4:
+		st = c17SecondComment{generic.NewGenericCommentState(), h}
+	case 5:
+		st = c17SecondSymbol{generic.NewGenericSymbolState(), h}
+	default:
+		st = c17SecondPlain{h}
+	}
+	t := newTokenizer(kind)
+	setter, ok := t.(interface {
+		SetCharacterState(rune, rune, tokenizers.ITokenizerState)
+	})
+	if !ok {
+		c.Count("skipped_tokenizer_without_SetCharacterState", 1)
+		return
+	}
+	c.Eval(1)
+	c.Nontrivial()
+	if pv := fw.Try(func() { setter.SetCharacterState(rg[0], rg[1], st) }); pv != nil {
+		c.Violation("tokenizer-hands-over:panic", "%s tokenizer, SetCharacterState(%#x, %#x, a second %s state): panic %s", kind, rg[0], rg[1], c17SecondKinds[sk], panicShort(pv))
+		return
+	}
+	for _, p := range []rune{rg[0], rg[1]} {
+		for _, text := range []string{string(p), string([]rune{p, p, p})} {
+			h.calls = 0
+			res := tokenizeOn(t, text)
+			n := len([]rune(text))
+			good := !res.failed() && len(res.toks) >= n && h.calls == n
+			if good {
+				for k := 0; k < n; k++ {
+					if res.toks[k].typ != tokenizers.Special || res.toks[k].val != string(p) {
+						good = false
+					}
+				}
+			}
+			if !good {
+				detail := tokStr(res.toks)
+				if res.failed() {
+					detail = res.failStr()
+				}
+				c.Violation("tokenizer-hands-over:"+c17SecondKinds[sk], "%s tokenizer with U+%04X..U+%04X configured for a second %s state object: over %q that object was called %d times (one call per character expected), tokens %s", kind, rg[0], rg[1], c17SecondKinds[sk], text, h.calls, detail)
+				return
+			}
+		}
+	}
+}
+
 func c17TokenizerCustom(c *fw.Ctx, i int64) {
 	nOps := int64(28 * 3)
 	a, b := int(i/nOps), int(i%nOps)
@@ -493,6 +621,15 @@ func c17WordChars(c *fw.Ctx, i int64) {
 		}
 		ivs = append(ivs, c17Interval{s, e, r})
 	}
+	// a state is only ever entered at a character handed to it: every probe text starts with an enabled
+	// character ('q' is enabled last of all; what a state does when called on a character that is not
+	// its own is not pinned)
+	if which == 0 {
+		ws.SetWordChars('q', 'q', true)
+	} else {
+		ss.SetWhitespaceChars('q', 'q', true)
+	}
+	ivs = append(ivs, c17Interval{'q', 'q', 0})
 	for _, p := range c17Probes {
 		if p == 0 {
 			continue
@@ -518,7 +655,7 @@ func c17WordChars(c *fw.Ctx, i int64) {
 				want += string(ch)
 			}
 			// a second, untouched state of the same kind keeps its default ranges whatever was toggled on the first
-			if onDefaults && ti > 0 {
+			if onDefaults && ti > 0 && c17ModelLookup(defaults, []rune(text)[0]) == 0 {
 				var tok2 *tokenizers.Token
 				pv2 := fw.Try(func() {
 					sc := rio.NewStringScanner(text)
@@ -543,6 +680,9 @@ func c17WordChars(c *fw.Ctx, i int64) {
 						return tok2.Value()
 					}(), text, want2, pv2)
 				}
+			}
+			if want == "" {
+				continue // the text does not start with a character of this state
 			}
 			if pv != nil || tok == nil || tok.Value() != want {
 				got := "<nil>"
@@ -570,7 +710,7 @@ func init() {
 		ID:    "C17",
 		Level: "model_checking",
 		Rule: "all histories of AddInterval/AddDefaultInterval/Clear over the boundary endpoints x {A,B,nil} up to the depth bound, each replayed on a fresh CharReferenceMap and compared probe by probe (17 probes: endpoints and neighbours) with an interval-list model by reference identity; " +
-			"plus three adjacent ranges (five sets on both sides of U+0100) in all six orders with all reference assignments; plus one registration followed by 255..257 and 65535..65537 Clear() calls; plus every triple of registrations above U+00FF on top of 13..255 live filler registrations; plus an explicit-state BFS with the probe vector as state key; plus derived checks through a real tokenizer's dispatch table and the word/whitespace states' range toggles (after Clear and on top of the default ranges, three probe texts, and an untouched second state must keep its defaults); every history is non-trivial except the empty one",
+			"plus three adjacent ranges (five sets on both sides of U+0100) in all six orders with all reference assignments; plus one registration followed by 255..257 and 65535..65537 Clear() calls; plus every triple of registrations above U+00FF on top of 13..255 live filler registrations; plus an explicit-state BFS with the probe vector as state key; plus derived checks through a real tokenizer's dispatch table, a second state object of every built-in kind configured for six ranges of the generic, expression and CSV tokenizers (every character must be handed to that object) and the word/whitespace states' range toggles (after Clear and on top of the default ranges, three probe texts that start with a character enabled for the state, and an untouched second state must keep its defaults); every history is non-trivial except the empty one",
 		Assume: []string{"probe-vector canonicalisation: equal probe vectors have equal futures on the probes for any implementation that answers lookups from the latest covering registration; the un-merged full enumeration does not rely on it"},
 		Spaces: func(tier string) []fw.Space {
 			depth, bfsDepth := 2, 3
@@ -647,6 +787,12 @@ func init() {
 				{Name: "tokenizer-dispatch-custom-states", N: nOps * nOps, Run: c17TokenizerCustom,
 					Repr: func(i int64) string {
 						return fmt.Sprintf("SetCharacterState %s; %s with user-defined states of a non-comparable type", c17Ops[int(i/nOps)], c17Ops[int(i%nOps)])
+					}},
+				{Name: "tokenizer-hands-over", N: int64(len(tokKinds) * len(c17SecondKinds) * len(c17SecondRanges)), Run: c17HandOver,
+					Repr: func(i int64) string {
+						k := int(i) / len(tokKinds)
+						rg := c17SecondRanges[k/len(c17SecondKinds)]
+						return fmt.Sprintf("%s tokenizer, U+%04X..U+%04X configured for a second %s state object", tokKinds[int(i)%len(tokKinds)], rg[0], rg[1], c17SecondKinds[k%len(c17SecondKinds)])
 					}},
 				{Name: "range-toggle", N: 4 * 56 * 56, Run: c17WordChars,
 					Repr: func(i int64) string { return fmt.Sprintf("range-toggle#%d", i) }},
